@@ -31,6 +31,9 @@ type World struct {
 	// Intercept, if set, sees every frame handed to a virtual link; returning
 	// false swallows the frame (it neither goes in flight nor into the log).
 	Intercept func(fl *Flight) bool
+	// OnEscalate, if set, sees every frame a node's switch escalated to its
+	// router, before the router handler runs.
+	OnEscalate func(n *Node, f frame.Frame)
 }
 
 // Flight is one frame crossing a virtual link.
@@ -198,6 +201,9 @@ func (w *World) DrainRouter(n *Node) (errs []error) {
 	for {
 		select {
 		case f := <-n.RouterIn:
+			if w.OnEscalate != nil {
+				w.OnEscalate(n, f)
+			}
 			if err := n.Router().VerifHandleFrame(f); err != nil {
 				w.note(n, "router", err)
 				errs = append(errs, err)
